@@ -141,6 +141,17 @@ def run(ctx):
                         for d in s["dids"]:
                             if d[2] != list(range(len(d[2]))):
                                 report("C13:versions-not-consecutive", f"subject {sname} event {k}: {d[2]}", w)
+        # documented assumption: no update is applied to a deactivated subject (didnuts skips the publication silently,
+        # SQL and network differ from then on). Such worlds are still compared with the model, but not judged.
+        off = False
+        for k, (op, o) in enumerate(zip(w["ops"], obs)):
+            if op["op"] == "do" and op["kind"] in ("addsvc", "updsvc", "delsvc", "addkey") and o[0] == "ok" and k > 0:
+                before = obs[k - 1][3].get(op["subj"], {"dids": []})
+                if any(d[4] == "deact" for d in before["dids"]):
+                    off = True
+        if off:
+            stats["world:update-on-deactivated-subject(not judged)"] += 1
+            continue
         if kind == "plain":
             last = obs[-1]
             if last[1] != 0:
@@ -228,4 +239,5 @@ def run(ctx):
 
 
 REQUIRED_DEEP = ["uniform_versions", "versions_consecutive", "versions_consecutive_monotone", "subject_unique", "all_or_nothing",
-                 "failed_commit_restores", "retry_enabled", "cfgNow_fixed"]
+                 "failed_commit_restores", "retry_enabled", "cfgNow_fixed", "stopped_operation_resolved",
+                 "abandoned_keys_unpublished_partial"]
